@@ -315,7 +315,7 @@ def plan(tier):
 
 def run_part(part, seed, shard, nshards, budget):
     flag = "restart-truncate-window" in budget.get("known_active", [])
-    return hyp.search(case_st().map(lambda c: dict(c, excl_window=flag)), run_case, budget["n_examples"], seed, part, shrink=False)
+    return hyp.search(case_st().map(lambda c: dict(c, excl_window=flag)), run_case, budget["n_examples"], seed, part, shrink=False, skip_zero=True)
 
 
 def replay(part, case):
